@@ -301,6 +301,10 @@ def run(tier):
         raise vlib.ToolError("no honest proof was accepted by both verifiers: the run is vacuous")
     for r in results[:2] + acc[:2] + [r for r in results if r["kind"] == "bitflip"][:2]:
         ck.sample({k: r[k] for k in ("id", "kind", "family", "version", "real", "ref", "proof")})
+    # honest proofs of one program per widget, made after the process has met labels that
+    # extend / are prefixes of theirs (label primers, see reference_check)
+    import gadgets
+    gadgets.reference_widgets(ck, tier)
     ck.extra["triples_by_kind_version_outcome"] = {"%s/V%s/%s" % k: v for k, v in sorted(by.items())}
     ck.extra["undecodable_mutations"] = stats["no_event"]
     ck.notes.append("V1 acceptance is not exercised: no V1 prover exists (prove_with_version(V1) is "
